@@ -1,10 +1,10 @@
 import CCVerif.Lemmas.RangeExactTop
-import CCVerif.Lemmas.ParseNatural
+import CCVerif.Lemmas.ParsePosMap
 set_option linter.unusedVariables false
 /-!
 Helper lemmas of C06 `range_exact`, part 3 — from token numbers back to positions: every positioned token
 stream is its numbered stream (`number 0 ts`: the `k`-th token at `[k, k]`) with the positions put back
-(`loAt` / `hiAt`), and the parser commutes with that (`Lemmas/ParseNatural.lean`).
+(`loAt` / `hiAt`), and the parser commutes with that (`Lemmas/ParsePosMap.lean`).
 -/
 namespace CCVerif.RangeExact
 open CCVerif.Syntax CCVerif.Generated CCVerif.Lexer CCVerif.Parser CCVerif.PN
@@ -49,5 +49,12 @@ theorem number_map : ∀ (ts : Toks) (o : Int), (number o ts).map (mp (loAt ts o
       have hne : x.lo ≠ o := by omega
       have hne2 : x.hi ≠ o := by omega
       simp [mp, loAt, hiAt, hne, hne2]
+
+/-- parsing a positioned stream = parsing its numbered stream and putting the positions back -/
+theorem parseToks_number (ts : Toks) :
+    parseToks ts = (parseToks (number 0 ts)).map (mpA (loAt ts 0) (hiAt ts 0)) := by
+  have h := parseToks_natural (pl := loAt ts 0) (ph := hiAt ts 0) (number 0 ts)
+  rw [number_map] at h
+  exact h
 
 end CCVerif.RangeExact
